@@ -1,5 +1,7 @@
 import OmplModel.Proofs.ControlRRT
 import OmplModel.Proofs.ControlSST
+import OmplModel.Proofs.ControlEST
+import OmplModel.Proofs.ControlKPIECE
 import OmplModel.Model.ControlExtra
 import OmplModel.Proofs.ControlSamplerReal
 /-!
@@ -630,5 +632,390 @@ theorem uniformInt_range (lo hi : Int) (r : ℝ) (h : lo ≤ hi) (h0 : 0 ≤ r) 
   uniformInt_bounds lo hi r h h0 h1
 
 example : (1 : Int) ≤ 20 ∧ (0 : ℝ) ≤ 1 / 2 ∧ (1 / 2 : ℝ) < 1 := by norm_num
+
+/-! ## control::EST::solve
+
+`Model/CEST.lean`: the planner's own random number generator is an abstract state machine
+(`ρ`, `P.rng01`, `P.rngInt` arbitrary), the sampler outcomes and control draws are scripted; the
+weight type `δ` is arbitrary (`WScale δ`), so all theorems here are arithmetic-free and hold for the
+`Float` run.  The grid/PDF theorems reuse the C12 PDF invariants (`ShapeInv`, `IdxSync`). -/
+
+section CEST
+variable {δ κ ρ : Type} [DecidableEq κ] [Pdf.WScale δ]
+
+/-- **Every path reported by control::EST replays**; every control is one of the scripted
+`sampleTo` draws and its whole step count lies between `minControlDuration` and the drawn count. -/
+theorem cest_path_replays (P : CEST.Problem S U δ κ ρ) (g : ρ) (starts : List S)
+    (draws : List (CEST.Draw S U)) (p : Path S U) (h : (CEST.solve P g starts draws).path = some p) :
+    ∃ s0 rest, p.states = s0 :: rest ∧ s0 ∈ starts ∧ P.valid s0 = true ∧
+      rest.length = p.controls.length ∧ p.steps.length = p.controls.length ∧
+      ReplayOK P.step P.valid s0 (segs rest p.controls p.steps) ∧
+      ∀ u k s', (u, k, s') ∈ segs rest p.controls p.steps →
+        ∃ d ∈ draws, ∃ k0, (u, k0) ∈ d.ctl ∧ P.minSteps ≤ k ∧ k ≤ k0 := by
+  obtain ⟨s0, sl, rfl, h1, h2, h3, h4, _⟩ := CEST.solve_path P g starts draws p h
+  refine ⟨s0, sl.map (·.2.2), rfl, h1, h2, by simp [ofSegs], by simp [ofSegs], ?_, ?_⟩
+  · simp only [ofSegs, segs_map]; exact h3
+  · intro u k s' hm
+    simp only [ofSegs, segs_map] at hm
+    exact h4 _ hm
+
+/-- **An exact control::EST solution ends in the goal.** -/
+theorem cest_exact_goal (P : CEST.Problem S U δ κ ρ) (g : ρ) (starts : List S)
+    (draws : List (CEST.Draw S U)) (p : Path S U) (h : (CEST.solve P g starts draws).path = some p)
+    (hex : (CEST.solve P g starts draws).status = .exact) :
+    ∃ last, p.states.getLast? = some last ∧ (P.goal last).1 = true := by
+  obtain ⟨s0, sl, rfl, _, _, _, _, h5⟩ := CEST.solve_path P g starts draws p h
+  exact ⟨endState s0 sl, getLast?_states s0 sl, h5 hex⟩
+
+/-- **control::EST reports a path exactly when the status is exact or approximate.** -/
+theorem cest_status_path (P : CEST.Problem S U δ κ ρ) (g : ρ) (starts : List S)
+    (draws : List (CEST.Draw S U)) :
+    ((CEST.solve P g starts draws).status = .exact ∨ (CEST.solve P g starts draws).status = .approximate) ↔
+      (CEST.solve P g starts draws).path.isSome = true :=
+  CEST.solve_status_path P g starts draws
+
+/-- **every motion of the final control::EST tree is sound** (as `crrt_tree_sound`). -/
+theorem cest_tree_sound (P : CEST.Problem S U δ κ ρ) (g : ρ) (starts : List S)
+    (draws : List (CEST.Draw S U)) (i : Nat) (m : Motion S U)
+    (h : (CEST.solve P g starts draws).final.tree[i]? = some m) :
+    P.valid m.state = true ∧
+    ((m.parent = none ∧ m.state ∈ starts) ∨
+     (∃ p pm, m.parent = some p ∧ p < i ∧ (CEST.solve P g starts draws).final.tree[p]? = some pm ∧
+        m.state = propagate P.step pm.state m.control m.steps ∧
+        (∀ j, 1 ≤ j → j ≤ m.steps → P.valid (propagate P.step pm.state m.control j) = true))) := by
+  have hT := (CEST.solve_final_inv P g starts draws).tree
+  refine ⟨treeInvG_valid _ _ _ _ _ hT (i + 1) i m (Nat.lt_succ_self i) h, ?_⟩
+  cases hT i m h with
+  | inl h => exact Or.inl ⟨h.1, h.2.1⟩
+  | inr h =>
+    obtain ⟨p, pm, h1, h2, h3, h4, h5, _⟩ := h
+    exact Or.inr ⟨p, pm, h1, h2, h3, h4, h5⟩
+
+/-- **one PDF element per grid cell, with the coded weight** [AF]: at every interruption point of
+every run the PDF has exactly as many elements as there are cells (none was ever removed), its tree
+shape and `index_` fields are intact, and cell number `ci` is non-empty, owns the live handle `ci`
+and its element's weight is `1.0` if the cell holds one motion, `1.0 / size` otherwise — the formula
+of `EST::addMotion` for the cell's CURRENT size.  (`hw`: `PDF::add` accepts the weight of a new cell.) -/
+theorem cest_pdf_sync (P : CEST.Problem S U δ κ ρ)
+    (hw : Pdf.WOps.lt P.wOne (Pdf.WOps.zero : δ) = false) (g : ρ) (starts : List S)
+    (draws : List (CEST.Draw S U)) :
+    let st := (CEST.solve P g starts draws).final
+    st.pdf.next = st.cells.size ∧ st.pdf.data.size = st.cells.size ∧
+    Pdf.ShapeInv st.pdf ∧ Pdf.IdxSync st.pdf ∧
+    ∀ (ci : Nat) (cell : CEST.Cell κ), st.cells[ci]? = some cell →
+      cell.elem = ci ∧ cell.motions ≠ [] ∧ st.pdf.idx ci ≠ none ∧
+      st.pdf.getWeight ci =
+        some (if cell.motions.length = 1 then P.wOne else P.wInv cell.motions.length) := by
+  intro st
+  have hC := (CEST.solve_final_inv P g starts draws).cells hw
+  refine ⟨hC.pdf.next, hC.pdf.size, hC.pdf.shape, hC.pdf.idx, ?_⟩
+  intro ci cell h
+  obtain ⟨h1, h2, h3⟩ := hC.cellok ci cell h
+  refine ⟨h1, h2, ?_, h3⟩
+  intro hnone
+  unfold Pdf.Pdf.getWeight at h3
+  rw [hnone] at h3
+  cases h3
+
+/-- **the grid partitions the tree by projection cell** [AF]: cells have pairwise distinct
+coordinates; every motion listed in a cell is a tree motion whose state projects to that cell's
+coordinates; every tree motion is listed in a cell, in exactly one, exactly once; the cell sizes add
+up to `tree_.size`. -/
+theorem cest_grid_partition (P : CEST.Problem S U δ κ ρ)
+    (hw : Pdf.WOps.lt P.wOne (Pdf.WOps.zero : δ) = false) (g : ρ) (starts : List S)
+    (draws : List (CEST.Draw S U)) :
+    let st := (CEST.solve P g starts draws).final
+    (∀ (i j : Nat) (ci cj : CEST.Cell κ), st.cells[i]? = some ci → st.cells[j]? = some cj →
+      ci.coord = cj.coord → i = j) ∧
+    (∀ (ci : Nat) (cell : CEST.Cell κ), st.cells[ci]? = some cell → ∀ m ∈ cell.motions,
+      ∃ mo, st.tree[m]? = some mo ∧ P.coordOf mo.state = cell.coord) ∧
+    (∀ m, m < st.tree.size → ∃ (ci : Nat) (cell : CEST.Cell κ), st.cells[ci]? = some cell ∧ m ∈ cell.motions) ∧
+    (∀ (m i j : Nat) (ci cj : CEST.Cell κ), st.cells[i]? = some ci → st.cells[j]? = some cj →
+      m ∈ ci.motions → m ∈ cj.motions → i = j) ∧
+    (∀ (ci : Nat) (cell : CEST.Cell κ), st.cells[ci]? = some cell → cell.motions.Nodup) ∧
+    (st.cells.toList.map (·.motions.length)).sum = st.tree.size := by
+  intro st
+  have hC := (CEST.solve_final_inv P g starts draws).cells hw
+  refine ⟨hC.distinct, fun ci cell h m hm => (hC.mem ci cell h m hm).2, hC.cover, ?_, hC.nodup, hC.count⟩
+  intro m i j ci cj hi hj hmi hmj
+  obtain ⟨_, mo, h1, h2⟩ := hC.mem i ci hi m hmi
+  obtain ⟨_, mo', h3, h4⟩ := hC.mem j cj hj m hmj
+  rw [h1] at h3
+  cases Option.some.inj h3
+  exact hC.distinct i j ci cj hi hj (by rw [← h2, ← h4])
+
+/-- **the motion `selectMotion` picks is a tree motion** [AF]: at every interruption point of every
+run, for every value `r` whatsoever, `pdf_.sample(r)` never reads out of range, on a non-empty grid
+it never finds the PDF empty, an element it returns is a non-empty cell, and whatever `selectMotion`
+returns (for every generator state) is the index of a motion of the tree — `existing` never dangles. -/
+theorem cest_select_is_tree_motion (P : CEST.Problem S U δ κ ρ)
+    (hw : Pdf.WOps.lt P.wOne (Pdf.WOps.zero : δ) = false) (g : ρ) (starts : List S)
+    (draws : List (CEST.Draw S U)) (r : δ) :
+    let st := (CEST.solve P g starts draws).final
+    st.pdf.sample r ≠ .oob ∧ (0 < st.cells.size → st.pdf.sample r ≠ .errEmpty) ∧
+    (∀ h, st.pdf.sample r = .ok h → ∃ cell, st.cells[h]? = some cell ∧ cell.motions ≠ []) ∧
+    (∀ (g' : ρ) (ex : Nat), (CEST.selectMotion P { st with rng := g' }).1 = some ex → ex < st.tree.size) := by
+  intro st
+  have hI : CEST.EInv P starts draws st := CEST.solve_final_inv P g starts draws
+  have hC : CEST.CInv P st st.tree.size := hI.cells hw
+  refine ⟨?_, ?_, CEST.sample_ok_cell P st _ hC r, ?_⟩
+  · unfold Pdf.Pdf.sample
+    split
+    · simp
+    · rename_i hn
+      split
+      · simp
+      · have hn' : 0 < st.pdf.data.size := by omega
+        have ht := Pdf.total_isSome st.pdf.tree _ hn' hC.pdf.shape
+        obtain ⟨tot, htot⟩ := Option.isSome_iff_exists.mp ht
+        rw [htot]
+        simp only
+        have hlt := Pdf.walk_lt st.pdf.tree _ (Pdf.WScale.mul r tot) hn' hC.pdf.shape
+        rw [Array.getElem?_eq_getElem hlt]
+        simp
+  · intro hpos
+    have hne : st.pdf.data.size ≠ 0 := by rw [hC.pdf.size]; omega
+    unfold Pdf.Pdf.sample
+    rw [if_neg hne]
+    split
+    · simp
+    · split
+      · simp
+      · split <;> simp
+  · intro g' ex hex
+    have hC' : CEST.CInv P { st with rng := g' } st.tree.size :=
+      (CEST.einv_rng P starts draws st g' hI).cells hw
+    exact CEST.selectMotion_lt P _ _ hC' ex hex
+
+/-- **every path control::EST reports passes `PathControl::check`, before and after `interpolate`**. -/
+theorem cest_path_checks [DecidableEq S] (P : CEST.Problem S U δ κ ρ) (g : ρ) (starts : List S)
+    (draws : List (CEST.Draw S U)) (p : Path S U) (h : (CEST.solve P g starts draws).path = some p) :
+    p.check P.step P.valid (fun a b => decide (a = b)) = true ∧
+    (p.interpolate P.step).check P.step P.valid (fun a b => decide (a = b)) = true := by
+  obtain ⟨s0, rest, h1, _, h3, h4, h5, h6, _⟩ := cest_path_replays P g starts draws p h
+  refine ⟨check_complete P.step P.valid p s0 rest h1 h4 h5 h6 h3, ?_⟩
+  obtain ⟨rest', e1, e2, e3, e4, _⟩ := interpolate_preserves_replay P.step P.valid p s0 rest h1 h4 h5 h6
+  exact check_complete P.step P.valid _ s0 rest' e1 e2 e3 e4 h3
+
+end CEST
+
+/-- `Int` as a weight type for the kernel-evaluated control::EST example -/
+@[reducible] def intScaleC : Pdf.WScale Int where
+  add := (· + ·)
+  sub := (· - ·)
+  lt := fun a b => decide (a < b)
+  zero := 0
+  mul := (· * ·)
+  one := 1
+
+/-- integrator on `Nat` (valid below 10, goal 6), projection `s / 3`, cell weights `60`, `60 / size`,
+a counter as random number generator -/
+def estN : CEST.Problem Nat Nat Int Nat Nat :=
+  { step := stepN, valid := validN, dist := fun a b => Int.ofNat (distN a b),
+    lt := fun a b => decide (a < b), inf := 1000,
+    goal := fun s => (decide (s = 6), Int.ofNat (distN s 6)), goalSample := 6,
+    goalSampleable := false, canSample := false, goalBias := 0, nullControl := 0, minSteps := 1,
+    coordOf := fun s => s / 3, wOne := 60, wInv := fun n => 60 / Int.ofNat n,
+    rng01 := fun g => (Int.ofNat (g % 2), g + 1), rngInt := fun g hi => (g % (hi + 1), g + 1) }
+
+def estScriptC : List (CEST.Draw Nat Nat) :=
+  [{ near := some 2, ctl := [(1, 2)] }, { near := some 6, ctl := [(2, 2)] }]
+
+def estRes : CEST.Result Nat Nat Int Nat Nat := @CEST.solve Nat Nat Int Nat Nat _ intScaleC estN 0 [0] estScriptC
+
+/-- non-vacuity: an exact path with two segments, two cells (cell 0 holds two motions, weight
+`60 / 2`; cell 2 holds one, weight `60`), PDF rows `[30, 60] / [90]` -/
+example :
+    estRes.status = .exact ∧
+    estRes.path.map (fun p => (p.states, p.controls, p.steps)) = some ([0, 2, 6], [1, 2], [2, 2]) ∧
+    estRes.final.cells.toList.map (fun c => (c.coord, c.motions, c.elem)) = [(0, [0, 1], 0), (2, [2], 1)] ∧
+    estRes.final.pdf.tree = [#[30, 60], #[90]] := by
+  simp [estRes, CEST.solve, CEST.run, CEST.iter, CEST.init, CEST.addMotion, CEST.enterCell, CEST.findCell,
+    CEST.selectMotion, Pdf.Pdf.sample, Pdf.Pdf.add, Pdf.Pdf.update, Pdf.total?, Pdf.walk, Pdf.setIdx,
+    Pdf.addRows, Pdf.bump, sampleTo, pwv, pwvLoop, reported, chain, pathOf, estN, estScriptC, stepN, validN,
+    distN, Pdf.WOps.lt, Pdf.WOps.zero, Pdf.WOps.add, Pdf.WOps.sub, Pdf.WScale.mul, Pdf.WScale.one]
+
+theorem estN_hw : @Pdf.WOps.lt Int intScaleC.toWOps estN.wOne (@Pdf.WOps.zero Int intScaleC.toWOps) = false := by
+  decide
+
+example := @cest_path_replays Nat Nat Int Nat Nat _ intScaleC estN 0 [0] estScriptC
+example := @cest_path_checks Nat Nat Int Nat Nat _ intScaleC _ estN 0 [0] estScriptC
+example := @cest_pdf_sync Nat Nat Int Nat Nat _ intScaleC estN estN_hw 0 [0] estScriptC
+example := @cest_grid_partition Nat Nat Int Nat Nat _ intScaleC estN estN_hw 0 [0] estScriptC
+example := @cest_select_is_tree_motion Nat Nat Int Nat Nat _ intScaleC estN estN_hw 0 [0] estScriptC 1
+
+/-! ## control::KPIECE1::solve
+
+`Model/CKPIECE.lean`, on top of the C13 grid model (`GridB`) and the shared `Discretization` pieces.
+Generic over the state/control types, every `Num α` (so the theorems hold for the `Float` run), the
+planner's RNG as an abstract state machine, and every script of (control, step count) draws.
+`hcoord`: the projection has `dim` coordinates (as in C13). -/
+
+section CKPIECE
+open OmplModel.Disc OmplModel.Grid
+variable {α ρ : Type} [Num α] [HasLog α]
+
+/-- **Every path reported by control::KPIECE1 replays.**  A propagated motion is split at cell
+boundaries, so a reported segment is a whole number `k ≥ 1` of steps of one scripted control, at
+most the drawn count — NOT necessarily `≥ minControlDuration`: only the *sum* over the split
+pieces of one propagation reaches it (`ckpiece_split_adds_up`). -/
+theorem ckpiece_path_replays (Pb : CKPIECE.Problem S U α ρ) (g : ρ) (starts : List S)
+    (draws : List (CKPIECE.Draw U)) (p : Path S U) (h : (CKPIECE.solve Pb g starts draws).path = some p) :
+    ∃ s0 rest, p.states = s0 :: rest ∧ s0 ∈ starts ∧ Pb.valid s0 = true ∧
+      rest.length = p.controls.length ∧ p.steps.length = p.controls.length ∧
+      ReplayOK Pb.step Pb.valid s0 (segs rest p.controls p.steps) ∧
+      ∀ u k s', (u, k, s') ∈ segs rest p.controls p.steps →
+        1 ≤ k ∧ ∃ d ∈ draws, d.control = u ∧ k ≤ d.steps := by
+  obtain ⟨s0, sl, rfl, h1, h2, h3, h4, _⟩ := CKPIECE.solve_path Pb g starts draws p h
+  refine ⟨s0, sl.map (·.2.2), rfl, h1, h2, by simp [ofSegs], by simp [ofSegs], ?_, ?_⟩
+  · simp only [ofSegs, segs_map]; exact h3
+  · intro u k s' hm
+    simp only [ofSegs, segs_map] at hm
+    exact h4 _ hm
+
+/-- **The split motions of one propagation share one control and their step counts add up**: the
+`while (index < cd)` loop started at `existing = ex` appends motions `news` to the tree (and nothing
+else changes in it); the first one's parent is `ex`, every later one's parent is the previous new
+motion; all carry the control `u` and at least one step; their step counts sum to the propagated
+count `cd` — or, when the loop stops at a goal hit, to at most `cd` (and at least one was added). -/
+theorem ckpiece_split_adds_up (Pb : CKPIECE.Problem S U α ρ) (states : List S) (coords : List Coord) (u : U)
+    (cd ex : Nat) (st : CKPIECE.St S U α ρ) (hlen : states.length = cd) :
+    let out := CKPIECE.splitLoop Pb states coords u cd cd 0 ex st
+    ∃ news : List (Motion S U),
+      out.1.tree.toList = st.tree.toList ++ news ∧
+      (∀ (i : Nat) (m : Motion S U), news[i]? = some m →
+        m.parent = some (if i = 0 then ex else st.tree.size + i - 1)) ∧
+      (∀ m ∈ news, m.control = u ∧ 1 ≤ m.steps) ∧
+      (if out.2 = true then news ≠ [] ∧ (news.map (·.steps)).sum ≤ cd
+        else (news.map (·.steps)).sum = cd) := by
+  intro out
+  obtain ⟨news, h1, h2, h3, h4⟩ :=
+    CKPIECE.splitLoop_spec Pb states coords u cd hlen cd 0 ex st (Nat.zero_le _) (by omega)
+  exact ⟨news, h1, CKPIECE.chainFrom_get news ex st.tree.size h2, h3, by simpa using h4⟩
+
+/-- **An exact control::KPIECE1 solution ends in the goal.** -/
+theorem ckpiece_exact_goal (Pb : CKPIECE.Problem S U α ρ) (g : ρ) (starts : List S)
+    (draws : List (CKPIECE.Draw U)) (p : Path S U) (h : (CKPIECE.solve Pb g starts draws).path = some p)
+    (hex : (CKPIECE.solve Pb g starts draws).status = .exact) :
+    ∃ last, p.states.getLast? = some last ∧ (Pb.goal last).1 = true := by
+  obtain ⟨s0, sl, rfl, _, _, _, _, h5⟩ := CKPIECE.solve_path Pb g starts draws p h
+  exact ⟨endState s0 sl, getLast?_states s0 sl, h5 hex⟩
+
+/-- **control::KPIECE1 reports a path exactly when the status is exact or approximate.** -/
+theorem ckpiece_status_path (Pb : CKPIECE.Problem S U α ρ) (g : ρ) (starts : List S)
+    (draws : List (CKPIECE.Draw U)) :
+    ((CKPIECE.solve Pb g starts draws).status = .exact ∨
+        (CKPIECE.solve Pb g starts draws).status = .approximate) ↔
+      (CKPIECE.solve Pb g starts draws).path.isSome = true :=
+  CKPIECE.solve_status_path Pb g starts draws
+
+/-- **every motion of the final control::KPIECE1 tree is sound** (as `crrt_tree_sound`; the step
+count of a non-root motion is ≥ 1 and at most the drawn count of a scripted draw with its control). -/
+theorem ckpiece_tree_sound (Pb : CKPIECE.Problem S U α ρ) (g : ρ) (starts : List S)
+    (draws : List (CKPIECE.Draw U)) (i : Nat) (m : Motion S U)
+    (h : (CKPIECE.solve Pb g starts draws).final.tree[i]? = some m) :
+    Pb.valid m.state = true ∧
+    ((m.parent = none ∧ m.state ∈ starts) ∨
+     (∃ p pm, m.parent = some p ∧ p < i ∧ (CKPIECE.solve Pb g starts draws).final.tree[p]? = some pm ∧
+        m.state = propagate Pb.step pm.state m.control m.steps ∧
+        (∀ j, 1 ≤ j → j ≤ m.steps → Pb.valid (propagate Pb.step pm.state m.control j) = true) ∧
+        1 ≤ m.steps ∧ ∃ d ∈ draws, d.control = m.control ∧ m.steps ≤ d.steps)) := by
+  have hT := (CKPIECE.solve_final_inv Pb g starts draws).tinv
+  refine ⟨treeInvG_valid _ _ _ _ _ hT (i + 1) i m (Nat.lt_succ_self i) h, ?_⟩
+  cases hT i m h with
+  | inl h => exact Or.inl ⟨h.1, h.2.1⟩
+  | inr h =>
+    obtain ⟨p, pm, h1, h2, h3, h4, h5, h6⟩ := h
+    exact Or.inr ⟨p, pm, h1, h2, h3, h4, h5, h6⟩
+
+/-- **control::KPIECE1 obeys the GridB protocol C13 relies on** [AF].  The planner's `TreeData`
+after every script is reached from the empty one by a history of `KStep`s — `addMotion` of a fresh
+motion index under a coordinate of `dim` entries, `selectMotion`, a score change followed by
+`grid.update(cell)`, `iteration++` — with "motion `i` is stored under the projection of its state"
+as the abstract content; and every such step from a reachable state accesses the grid by at most one
+operation of the C13 alphabet (`GridAccess`: a coordinate of `dim` entries, `createCell`+`add` only
+for an absent coordinate, no `remove`) and keeps the C13 Discretization invariant `DInv`. -/
+theorem ckpiece_grid_protocol (Pb : CKPIECE.Problem S U α ρ)
+    (hcoord : ∀ s, (Pb.coordOf s).length = Pb.P.dim) (g : ρ) (starts : List S)
+    (draws : List (CKPIECE.Draw U)) :
+    CKPIECE.KReach Pb.P Pb.borderFraction (CKPIECE.solve Pb g starts draws).final.disc
+      (CKPIECE.liveOf Pb (CKPIECE.solve Pb g starts draws).final.tree) ∧
+    ∀ (d d' : Disc α) (live live' : Live), CKPIECE.KReach Pb.P Pb.borderFraction d live →
+      CKPIECE.KStep Pb.P d live d' live' → GridAccess Pb.P d d' ∧ DInv Pb.P d' live' :=
+  ⟨(CKPIECE.solve_final_inv Pb g starts draws).dreach hcoord,
+   fun _ _ _ _ hr hs => ⟨CKPIECE.kstep_access hs, CKPIECE.kstep_inv (CKPIECE.kreach_inv hr) hs⟩⟩
+
+/-- **the discretization follows the tree** [AF]: after every script the C13 invariant `DInv` holds
+with "motion `i` under `coordOf` of its state"; every tree motion sits in exactly the cell of its
+coordinate, no cell is empty, `size` is the number of motions; and the GridB invariants of C13 hold
+(well-formed cell list, neighbour counts and border flags, each cell in exactly one queue, external
+iff border). -/
+theorem ckpiece_disc_inv (Pb : CKPIECE.Problem S U α ρ)
+    (hcoord : ∀ s, (Pb.coordOf s).length = Pb.P.dim) (g : ρ) (starts : List S)
+    (draws : List (CKPIECE.Draw U)) :
+    let r := (CKPIECE.solve Pb g starts draws).final
+    DInv Pb.P r.disc (CKPIECE.liveOf Pb r.tree) ∧
+    (∀ i mo, r.tree[i]? = some mo → ∀ e ∈ r.disc.cdata, (i ∈ e.2.motions ↔ e.1 = Pb.coordOf mo.state)) ∧
+    (∀ i mo, r.tree[i]? = some mo → ∃ e ∈ r.disc.cdata, e.1 = Pb.coordOf mo.state) ∧
+    (∀ e ∈ r.disc.cdata, e.2.motions ≠ []) ∧ r.disc.size = r.tree.size ∧
+    WF Pb.P.dim r.disc.grid.cells ∧
+    (∀ c ∈ r.disc.grid.cells, c.nbrs = (neighbors Pb.P.dim r.disc.grid.cells c.coord).length ∧
+      (c.border = true ↔ c.nbrs < 2 * Pb.P.dim)) ∧
+    (qids r.disc.grid.external ++ qids r.disc.grid.internal).Perm (r.disc.grid.cells.map (·.id)) ∧
+    (r.disc.grid.cells.map (·.id)).Nodup ∧
+    (∀ c ∈ r.disc.grid.cells, (c.id ∈ qids r.disc.grid.external ↔ c.border = true) ∧
+      (c.id ∈ qids r.disc.grid.internal ↔ c.border = false)) := by
+  intro r
+  have h : DInv Pb.P r.disc (CKPIECE.liveOf Pb r.tree) :=
+    CKPIECE.kreach_inv ((CKPIECE.solve_final_inv Pb g starts draws).dreach hcoord)
+  have hi := h.ginv
+  refine ⟨h, ?_, ?_, fun e he => (h.mot e he).2, ?_, ⟨hi.nodup, hi.len⟩, ?_, hi.queues_perm, hi.idnd,
+    fun c hc => ⟨hi.ext_iff_border hc, hi.int_iff_interior hc⟩⟩
+  · intro i mo hmo e he
+    exact mem_cell_iff h ((CKPIECE.mem_liveOf Pb r.tree i _).2 ⟨mo, hmo, rfl⟩) he
+  · intro i mo hmo
+    have := h.cov _ ((CKPIECE.mem_liveOf Pb r.tree i _).2 ⟨mo, hmo, rfl⟩)
+    obtain ⟨e, he, hk⟩ := List.mem_map.mp this
+    exact ⟨e, he, hk⟩
+  · rw [h.size]; simp [CKPIECE.liveOf]
+  · intro c hc
+    refine ⟨?_, ?_⟩
+    · have := hi.count c hc
+      rw [cnt_eq_neighbors] at this
+      exact this
+    · have := hi.border c hc
+      rw [this]; simp; rfl
+
+/-- **`selectMotion` answers a motion of the tree; the `halt` branches are dead** [AF]: unless the
+run ended with `INVALID_START`, on the state reached after every script the next iteration — for
+every draw, whichever of `CloseSamples` / grid selection it uses, and every generator whose
+`halfNormalInt(0, hi)` respects its range — selects an existing tree motion and does not stop with
+`halt` (`assert(existing)` cannot fail, no selection from an empty structure). -/
+theorem ckpiece_select_is_tree_motion (Pb : CKPIECE.Problem S U α ρ)
+    (hcoord : ∀ s, (Pb.coordOf s).length = Pb.P.dim) (hrng : ∀ g hi, (Pb.rngHalf g hi).1 ≤ hi)
+    (g : ρ) (starts : List S) (draws : List (CKPIECE.Draw U))
+    (hst : (CKPIECE.solve Pb g starts draws).status ≠ .invalidStart) (dr : CKPIECE.Draw U) :
+    let st := (CKPIECE.solve Pb g starts draws).final
+    0 < st.tree.size ∧
+    (∃ ex x, (CKPIECE.viaCloseF Pb st).2 = some (ex, x) ∧ ex < (CKPIECE.viaCloseF Pb st).1.tree.size) ∧
+    CKPIECE.iter Pb st dr = CKPIECE.iterTail Pb dr (CKPIECE.viaCloseF Pb st) ∧
+    (CKPIECE.iter Pb st dr).2 ≠ .halt := by
+  intro st
+  have hI := CKPIECE.solve_final_inv Pb g starts draws
+  have hpos := CKPIECE.solve_tree_pos Pb g starts draws hcoord hst
+  exact ⟨hpos, CKPIECE.viaCloseF_some Pb starts draws _ hcoord hrng st hI hpos, rfl,
+    CKPIECE.iter_no_halt Pb starts draws _ hcoord hrng st hI hpos dr⟩
+
+/-- **every path control::KPIECE1 reports passes `PathControl::check`, before and after `interpolate`**. -/
+theorem ckpiece_path_checks [DecidableEq S] (Pb : CKPIECE.Problem S U α ρ) (g : ρ) (starts : List S)
+    (draws : List (CKPIECE.Draw U)) (p : Path S U) (h : (CKPIECE.solve Pb g starts draws).path = some p) :
+    p.check Pb.step Pb.valid (fun a b => decide (a = b)) = true ∧
+    (p.interpolate Pb.step).check Pb.step Pb.valid (fun a b => decide (a = b)) = true := by
+  obtain ⟨s0, rest, h1, _, h3, h4, h5, h6, _⟩ := ckpiece_path_replays Pb g starts draws p h
+  refine ⟨check_complete Pb.step Pb.valid p s0 rest h1 h4 h5 h6 h3, ?_⟩
+  obtain ⟨rest', e1, e2, e3, e4, _⟩ := interpolate_preserves_replay Pb.step Pb.valid p s0 rest h1 h4 h5 h6
+  exact check_complete Pb.step Pb.valid _ s0 rest' e1 e2 e3 e4 h3
+
+end CKPIECE
 
 end OmplModel.Props.C02
